@@ -249,11 +249,7 @@ pub fn compare_traces(pred: &Pred, act: &Actual, top_ok_and_events_agree: Option
             if pr.events != ar.events || data_differs {
                 owners.push("C04");
             }
-            // when the final response of the same run agrees with the composition rules, a
-            // difference inside Reply is C03's alone
-            if top_ok_and_events_agree == Some(true) {
-                owners = vec!["C03"];
-            }
+            let _ = top_ok_and_events_agree;
             return Some(Disc { owners, sig: "reply:content".into(), msg: format!("trace position {} ({}): Reply carries events [{}] data {:?}; the sub-message produced events [{}] data {:?}", i, entry_brief(p), events_str(&ar.events), ar.data.as_deref().map(hexs), events_str(&pr.events), pr.data.as_deref().map(hexs)), model_free: false });
         }
         if p.reads != a.reads {
